@@ -53,6 +53,7 @@ def decOp (tok : String) : Option Op :=
   else if tok == "r" then some .render else if tok == "t" then some .mkTrigger
   else if tok == "T" then some .mkThreadsafeTrigger
   else if tok.startsWith "R" then (tok.drop 1).toString.toNat?.map Op.renderCrash
+  else if tok.startsWith "sz" then (tok.drop 2).toString.toNat?.map Op.envSize
   else if tok.startsWith "et" then (tok.drop 2).toString.toNat?.map Op.envTty
   else if tok.startsWith "ef" then (tok.drop 2).toString.toNat?.map Op.envFl
   else if tok.startsWith "es" then (decHandler (tok.drop 2).toString).map Op.envSigint
